@@ -72,7 +72,7 @@ def execute(c):
     if op == "sort_tree":
         cols = c["cols"]
         kw = {k: column(c, j, k, 0) for j, k in enumerate(COLS)}
-        t = Tree(len(cols), id=np.array(c["ids"], dtype=np.int32), pid=np.array(c["pids"], dtype=np.int32), **kw)
+        t = Tree(len(cols), source=lib.SRC, id=np.array(c["ids"], dtype=np.int32), pid=np.array(c["pids"], dtype=np.int32), **kw)
         if enc:
             for j, k in enumerate(COLS):
                 if k != "type":
